@@ -173,8 +173,20 @@ structure FoldFn where
   typed : List (ArmClass × Tok)   -- Go operator used by each typed arm
   deriving DecidableEq, Repr, Inhabited
 
+/-- what the condition of the quotient switch of `quoConst` looks at -/
+inductive QuoRule where
+  /-- `c0.Kind() == constant.Int && c1.Kind() == constant.Int`, `c0, c1 := vConstantValue(v0), vConstantValue(v1)`:
+      the kinds of the two operand constants (since the repair of F48) -/
+  | operandKinds
+  /-- `n.typ.untyped && isInt(n.typ.rtype)`: the type of the node, which the pre-order pass copies from the
+      context (the code before the repair of F48; kept so that a reverted source is followed by the model) -/
+  | nodeType
+  | other
+  deriving DecidableEq, Repr, Inhabited
+
 structure QuoSwitch where
   cond : String          -- normalised text of the condition that selects `thenTok`
+  rule : QuoRule         -- the same, as recognised by the extractor
   thenTok : Tok
   elseTok : Tok
   deriving DecidableEq, Repr, Inhabited
@@ -183,6 +195,9 @@ structure EvalFacts where
   constOp : List (Act × String)
   folds : List FoldFn
   quo : QuoSwitch
+  /-- cfg.go `fixUntyped` retypes the frame slot only of nodes that are not constants
+      (`if n.findex >= 0 && !n.rval.IsValid()`, since 08f21a9); before, a parenthesised literal made it index `sc.types` -/
+  fixSkipsConst : Bool
   deriving DecidableEq, Repr
 
 def EvalFacts.foldOf (f : EvalFacts) (a : Act) : Option FoldFn :=
